@@ -128,6 +128,38 @@ def program(kind, pos):
     return "min x\ns.t.\n    x <= 50\n    %s\nwhere\n%s\ndefine\n%s\n" % (c, "\n".join("    " + w for w in wh), "\n".join("    " + d for d in df))
 
 
+def scoping_programs():
+    """names used where they are not (yet) bound: the checker must see the scopes the transformer sees"""
+    def prog(cons, where=(), define=()):
+        return "min x\ns.t.\n    x <= 50\n%s\nwhere\n%s\ndefine\n%s\n" % ("\n".join("    " + c for c in cons), "\n".join("    " + w for w in PRELUDE + list(where)), "\n".join("    " + d for d in ["x as Real(0, 100)", "b as Boolean"] + list(define)))
+    out = [
+        ("iterator mentions its own name", prog(["x >= sum(i in 0..i) { i }"])),
+        ("iterator mentions its own name, range start", prog(["x >= sum(i in i..3) { i }"])),
+        ("second iterator mentions its own name", prog(["x >= sum(i in 0..3, j in i..j) { i + j }"])),
+        ("iterator mentions a later name of the same block", prog(["x >= sum(i in 0..j, j in 0..2) { i }"])),
+        ("destructured name in its own iterator", prog(["x >= sum((u1, u2) in neigh_edges_of(u1, G)) { 1 }"])),
+        ("destructured name in its own enumerate", prog(["x >= sum((el, ix) in enumerate(el)) { 1 }"])),
+        ("scoped max iterator mentions its own name", prog(["x >= max(i in 0..i) { i }"])),
+        ("scoped any iterator mentions its own name", prog(["any(i in 0..i) { b }"])),
+        ("quantifier mentions its own name", prog(["x >= i for i in 0..i"])),
+        ("second quantifier mentions its own name", prog(["x >= i + j for i in 0..2, j in j..3"])),
+        ("quantifier mentions a later quantifier", prog(["x >= i + j for i in 0..j, j in 0..2"])),
+        ("domain quantifier mentions its own name", prog(["x >= 1"], define=["u_i as Boolean for i in 0..i"])),
+        ("block name used after the block", prog(["x >= sum(i in 0..2) { i } + i"])),
+        ("block name used in a sibling block", prog(["x >= sum(i in 0..2) { i } + sum(j in 0..i) { j }"])),
+        ("quantifier name used in the next constraint", prog(["x >= i for i in 0..2", "x >= i + 1"])),
+        ("block name used in the next constraint", prog(["x >= sum(i in 0..2) { i }", "x >= sum(j in 0..i) { j }"])),
+        ("inner name used in the outer iterator", prog(["x >= sum(i in 0..j) { sum(j in 0..2) { i + j } }"])),
+        ("constant defined from a later constant", prog(["x >= k1"], where=["let k1 = k2 + 1", "let k2 = 1"])),
+        ("constant defined from itself", prog(["x >= k1"], where=["let k1 = k1 + 1"])),
+        ("constant defined from an iteration name", prog(["x >= k1 for i in 0..2"], where=["let k1 = i + 1"])),
+        ("domain bound from a quantifier of another declaration", prog(["x >= 1"], define=["u_i as Boolean for i in 0..2", "w as Real(0, i)"])),
+        ("outer names feed the inner block", prog(["x >= sum(i in 0..3, j in 0..i) { i + j } for k in 0..2"])),
+        ("outer quantifier feeds the block iterator", prog(["x >= sum(i in 0..k) { i } for k in 1..3"])),
+    ]
+    return [("scope: " + l, t) for l, t in out]
+
+
 def error_kind(r):
     """innermost TransformError variant name of an Err(..) value"""
     v = r.args[0] if r.args else None
@@ -154,7 +186,7 @@ def family(tier):
             t = program(k, p)
             if t is not None:
                 out.append(("%s @ %s" % (k[0], p[0]), t))
-    return out
+    return out + scoping_programs()
 
 
 def verdicts(RT, text):
@@ -196,7 +228,7 @@ def check(F, R, Gm, tier="quick"):
         if v == "unknown":
             bad_unknown.append("%s: %s" % (label, d[-200:]))
         if v == "error" and d in TYPE_CLASS:
-            body = text.split("\n")[3].strip()
+            body = " / ".join(l_.strip() for l_ in text.split("where")[0].split("\n")[3:] if l_.strip()) if label.startswith("scope: ") and "for i in 0..i" not in text.split("define")[-1] else text.split("\n")[3].strip()
             R.ob("TYPE-SOUND", label.replace(" ", "-"), False, where, "the type checker accepts `%s` and the transformer fails with the type-class error %s" % (body, d))
     for k, c in n.items():
         R.count("TYPE-SOUND." + k, c)
